@@ -15,8 +15,8 @@ open Lean KG KG.Model.Endpoints KG.Spec.Endpoints KG.Driver.C03
 def decodeKey (j : Json) : Except String Key := do
   (← j.getArr?).toList.mapM fun x => do pure (← J.getHex x "n", ← J.getNat x "gen")
 
-def runSetup (ops : Array Json) : Except String State := do
-  let mut s := init
+def runSetup (ops : Array Json) (policyScopes : Bool := false) : Except String State := do
+  let mut s := initScoped policyScopes
   for j in ops do
     let h ← decodeOp s j
     let r := step s h.op
@@ -30,7 +30,8 @@ def dedupKeys : List Key → List Key
 def idLt (a b : EName × Nat) : Bool := a.1.toHex < b.1.toHex || (a.1 == b.1 && a.2 < b.2)
 
 /-- the ready *set* of an ordered ready list -/
-def canonSet (κ : Key) : Key := ((κ.filter fun e => e.1 != [112, 105, 99, 107, 111, 110, 101, 58]).toArray.qsort idLt).toList
+def canonSet (κ : Key) : Key :=
+  ((κ.filter fun e => e.1 != [112, 105, 99, 107, 111, 110, 101, 58] && e.1 != [0]).toArray.qsort idLt).toList
 
 structure GroupVerdict where
   members : Key
@@ -70,34 +71,56 @@ def judgeGroup (lb : List (Key × Nat)) (members : Key) (keys : List Key) (res :
 def encodeId (e : EName × Nat) : Json := J.obj [("n", J.hex e.1), ("gen", J.nat e.2)]
 
 def doRun (a : Json) : Except String Json := do
-  let s ← runSetup (← J.getArr a "setup")
-  let lb ← (← J.getArr a "lb").toList.mapM fun x => do pure (← decodeKey (← J.getObj x "key"), ← J.getNat x "c")
+  let policyScopes := (J.getBool a "policy_scopes").toOption.getD false
+  let s ← runSetup (← J.getArr a "setup") policyScopes
+  let lb ← (← J.getArr a "lb").toList.mapM fun x => do
+    let k ← decodeKey (← J.getObj x "key")
+    -- a preset for the cursor of policy i carries "policy": i when the policies have scopes of their own
+    let k := match (J.getNat x "policy").toOption with
+      | some i => if policyScopes then scopeTag i ++ k else k
+      | none => k
+    pure (k, ← J.getNat x "c")
   -- the window: picks (arrays of upstream names) and Syncs (`{"sync": <C03 sync op>}`) in between, in order
   let events ← J.getArr a "events"
   let mut st : State := { s with lb := lb }
   let mut lbAuth : List (Key × Nat) := []   -- PickOne's own cursors, when the code gives it some (`own`)
   let mut resultsA : Array PopOut := #[]
   let mut keysA : Array Key := #[]
+  let mut polA : Array (Option Nat) := #[]   -- the dispatch policy of each pick (none: PickOne, a bare picker)
   let mut stable := true     -- no Sync / probe of the window changed an endpoint's readiness: the ready sets are stable
-  let scopeTag : EName × Nat := ([112, 105, 99, 107, 111, 110, 101, 58], 0)   -- "pickone:" marks keys of the other cursor scope
+  let pickoneTag : EName × Nat := ([112, 105, 99, 107, 111, 110, 101, 58], 0)   -- "pickone:" marks keys of the other cursor scope
   for ev in events do
     match ev with
     | Json.arr xs =>
       let us ← xs.toList.mapM J.asHex
+      polA := polA.push none
       keysA := keysA.push ((readyList st.eps us).map EP.id)
       let r := pop st.eps st.lb us
       resultsA := resultsA.push r.1
       st := { st with lb := r.2 }
     | _ =>
+      match J.optObj ev "pick" with
+      | some pk =>
+        -- a dispatch policy's pick: {"us":[…], "policy": i}
+        let us ← J.getHexList pk "us"
+        let pol ← J.getNat pk "policy"
+        let tag := if policyScopes then scopeTag pol else []
+        polA := polA.push (some pol)
+        keysA := keysA.push (tag ++ (readyList st.eps us).map EP.id)
+        let r := popScoped tag st.eps st.lb us
+        resultsA := resultsA.push r.1
+        st := { st with lb := r.2 }
+      | none =>
       match J.optObj ev "pickone" with
       | some po =>
         -- ClusterInfo.PickOne(): a Pop over AllEndpoints() in the observed order, on the policies' cursors or on its own
         let us ← J.getHexList po "order"
         let own := (J.getBool po "own").toOption.getD false
         let key := (readyList st.eps us).map EP.id
+        polA := polA.push none
         if own then
           let r := pop st.eps lbAuth us
-          keysA := keysA.push (scopeTag :: key)
+          keysA := keysA.push (pickoneTag :: key)
           resultsA := resultsA.push r.1
           lbAuth := r.2
         else
@@ -126,7 +149,28 @@ def doRun (a : Json) : Except String Json := do
     let mine := pairs.filter fun p => canonSet p.1 == m
     let v := judgeGroup lb m (mine.map (·.1)) (mine.map (·.2))
     if stable then v else { v with applicable := false, bad := none }
+  -- per policy (`PolicyStrict`): the picks of ONE policy on one ordered ready list are strict round-robin among themselves,
+  -- whatever other policies pick in between; asked for when the code gives every policy its own cursors
+  let judgePerPolicy := (J.getBool a "judge_per_policy").toOption.getD false
+  let triples := (polA.toList.zip keys).zip implRes
+  let polKeys := dedupKeys ((triples.filterMap fun t => match t.1.1 with
+    | some p => some ((([1] : EName), p) :: (t.1.2.filter fun e => e.1 != [0]))
+    | none => none))
+  let policyBad : Option (Nat × (EName × Nat) × Nat × Nat) := if !(judgePerPolicy && stable) then none else
+    polKeys.findSome? fun pk =>
+      match pk with
+      | (_, p) :: κ =>
+        let mine := (triples.filter fun t => t.1.1 == some p && (t.1.2.filter fun e => e.1 != [0]) == κ).map (·.2)
+        let k := κ.length
+        let real := (if policyScopes then scopeTag p else []) ++ κ
+        if !(decide κ.Nodup && decide (2 ≤ k) && decide (lbGet lb real + keys.length < 2 ^ 64)) then none else
+        (κ.map fun e => (e, countPicked e.1 e.2 mine)).findSome? fun c =>
+          if strictOK k mine.length c.2 then none else some (p, c.1, c.2, mine.length)
+      | [] => none
   pure <| J.obj [
+    ("policy_bad", match policyBad with
+      | some (p, e, cnt, n) => J.obj [("policy", J.nat p), ("id", encodeId e), ("count", J.nat cnt), ("n", J.nat n)]
+      | none => Json.null),
     ("results", Json.arr (r.1.map encodePop).toArray), ("lb", encodeLb r.2), ("lb_pickone", encodeLb lbAuth),
     ("groups", Json.arr (verdicts.map fun v => J.obj [
       ("members", Json.arr (v.members.map encodeId).toArray), ("k", J.nat v.k), ("orders", J.nat v.orders), ("n", J.nat v.n),
